@@ -14,7 +14,8 @@ import numpy as np
 from .. import models
 from ..core import RunResult, adigest, mix
 from ..driver import pristine_library_state
-from .hist_common import SAME, TAU, call_value, quiet
+from .hist_common import SAME, TAU, quiet
+from .hist_common import call_value as _call_value
 
 NAME = "B9h"
 PROPERTY = "C09"
@@ -26,6 +27,11 @@ RULE = ("one run = one QuantumHedging object (1 or 2 repetitions; operator Q ran
         "same size used in between, and 3..6 calls of the four value methods in seeded order with repetition; non-trivial = >=2 distinct methods, one repeated, and 0 < min < max; distinct = distinct digest of (Q, repetitions, operation sequence)")
 SHRINK_ORDER = ["config", "game", "ops"]
 METHODS = ["max_prob_outcome_a_primal", "max_prob_outcome_a_dual", "min_prob_outcome_a_primal", "min_prob_outcome_a_dual"]
+
+
+def call_value(fn, res, label):
+    return _call_value(fn, res, label, prop="C09")
+
 
 
 def _mod():
